@@ -140,6 +140,8 @@ class World:
             eng.models = None
             hooks = (eng.call_hooks, eng.post_call_hooks, eng.edge_hooks)
             eng.call_hooks, eng.post_call_hooks, eng.edge_hooks = [], [], []
+            rhooks = eng.return_hooks
+            eng.return_hooks = []
             tmp = pk + ".tmp%d" % os.getpid()
             with open(tmp, "wb") as f:
                 pickle.dump(eng, f, protocol=pickle.HIGHEST_PROTOCOL)
@@ -150,6 +152,7 @@ class World:
             eng.prog, eng.models = prog, models
             try:
                 eng.call_hooks, eng.post_call_hooks, eng.edge_hooks = hooks
+                eng.return_hooks = rhooks
             except NameError:
                 pass
         return eng
@@ -157,8 +160,108 @@ class World:
     def engine(self, opts=None):
         from . import monitors
         eng = Engine(self.lib, self.models, opts=opts or {})
+        eng.deadline = time.time() + float(os.environ.get("VERIF_BUDGET_S", "900"))
         monitors.install(eng, self)
         return eng
+
+    def struct_leaves(self, adt_path, path=(), depth=0):
+        """(path, type index, field name) of every leaf of a struct, descending into crate-local helper structs"""
+        prog = self.lib
+        for i, f in enumerate(prog.adts[adt_path]["variants"][0]["fields"]):
+            t = prog.types[f["ty"]]
+            p2 = path + (i,)
+            if t["k"] == "adt" and t["path"].startswith("tftpd::") and t["path"] in prog.adts and prog.adts[t["path"]]["kind"] == "struct" and depth < 4:
+                for x in self.struct_leaves(t["path"], p2, depth + 1):
+                    yield x
+            else:
+                yield (p2, f["ty"], f["name"])
+
+    def window_layout(self):
+        """{role: path inside the Window value}: 'size', 'chunk_size', 'file' are the parameters of the public constructor
+        Window::new(size, chunk_size, file) (located by interpreting it); 'elements' is the VecDeque (by type); 'eof' the
+        bool the constructor initialises with false. Private fields may be renamed, reordered or grouped."""
+        lay = getattr(self, "_window_layout", None)
+        if lay is not None:
+            return lay
+        prog = self.lib
+        lay = {}
+        if WINDOW not in prog.adts:
+            self._window_layout = lay
+            return lay
+        leaves = list(self.struct_leaves(WINDOW))
+        for (pth, ti, nm) in leaves:
+            ts = prog.types[ti]["s"]
+            if ts.startswith("std::collections::VecDeque<"):
+                lay.setdefault("elements", pth)
+            elif ts == "std::fs::File":
+                lay.setdefault("file", pth)
+        new = WINDOW + "::new"
+        params = {1: "size", 2: "chunk_size", 3: "file"}
+        if new in prog.bodies:
+            eng = Engine(prog, self.models)
+            fr, finals = eng.run(new, region="fn:" + new)
+            for st in finals:
+                ret = st.store.get(("L", fr.id, 0), {})
+                for k, v in ret.items():
+                    if k and k[-1] in ("$len", "$discr", "$layout"):
+                        continue
+                    src = None
+                    if v[0] == "i" and not v[1][1]:
+                        for (lp, lti, _) in leaves:
+                            if lp == tuple(k) and prog.types[lti]["k"] == "bool" and v[1][0] == 0:
+                                lay.setdefault("eof", tuple(k))
+                        continue
+                    if v[0] == "i" and len(v[1][1]) == 1 and v[1][0] == 0 and v[1][1][0][1] == 1:
+                        nm = eng.sym_names[v[1][1][0][0]]
+                        if isinstance(nm, tuple) and nm[0] == "init" and nm[1][0] == "L" and nm[1][1] == fr.id and tuple(nm[2]) == ():
+                            src = nm[1][2]
+                    elif v[0] == "t" and isinstance(v[1], tuple) and v[1] and v[1][0] == "init" and v[1][1][0] == "L" and v[1][1][1] == fr.id and tuple(v[1][2]) == ():
+                        src = v[1][1][2]
+                    if src in params:
+                        lay[params[src]] = tuple(k)
+        self._window_layout = lay
+        return lay
+
+    def ctor_layout(self, ctor, config_adt):
+        """interpret a constructor `fn new(config: &Config) -> Result<Self, _>`: {public config field name: (path inside Self
+        that receives it, False)} plus {path: (path, True)} for leaves initialised with integer constants"""
+        prog = self.lib
+        out = {}
+        if ctor not in prog.bodies or config_adt not in prog.adts:
+            return out
+        cfields = [f["name"] for f in prog.adts[config_adt]["variants"][0]["fields"]]
+        e = self.run("fn:" + ctor)
+        croot = ("P", ("L", e.entry_frame, 1), ())
+        for st in e.finals:
+            ret = st.store.get(("L", e.entry_frame, 0), {})
+            for k, v in ret.items():
+                if k[:2] != (("v", 0), 0) or (k and k[-1] in ("$len", "$discr", "$layout")):
+                    continue
+                pth = tuple(k[2:])
+                src = None
+                if v[0] == "i" and not v[1][1]:
+                    out.setdefault(pth, (pth, True))
+                    continue
+                if v[0] == "i" and len(v[1][1]) == 1 and v[1][0] == 0 and v[1][1][0][1] == 1:
+                    nm = e.sym_names[v[1][1][0][0]]
+                    if isinstance(nm, tuple) and nm[0] == "init" and nm[1] == croot:
+                        src = tuple(nm[2])
+                elif v[0] == "t" and isinstance(v[1], tuple) and v[1] and v[1][0] == "init" and v[1][1] == croot:
+                    src = tuple(v[1][2])
+                if src and isinstance(src[0], int) and src[0] < len(cfields):
+                    rest = src[1:]
+                    if rest and pth[-len(rest):] == rest:
+                        pth = pth[:-len(rest)]
+                    out.setdefault(cfields[src[0]], (pth, False))
+        return out
+
+    def client_layout(self):
+        """{public ClientConfig field name: path inside the Client value} (by interpreting Client::new)"""
+        lay = getattr(self, "_client_layout", None)
+        if lay is None:
+            lay = {k: p for k, (p, c) in self.ctor_layout("tftpd::client::Client::new", "tftpd::client_config::ClientConfig").items() if isinstance(k, str)}
+            self._client_layout = lay
+        return lay
 
     def server_layout(self):
         """Where the Server value keeps what: {role: path inside Server}. Roles are the names of the PUBLIC fields of
@@ -176,54 +279,20 @@ class World:
             self._server_layout = lay
             return lay
 
-        def walk(adt_path, path, depth=0):
-            for i, f in enumerate(prog.adts[adt_path]["variants"][0]["fields"]):
-                t = prog.types[f["ty"]]
-                p2 = path + (i,)
-                if t["k"] == "adt" and t["path"].startswith("tftpd::") and t["path"] in prog.adts and prog.adts[t["path"]]["kind"] == "struct" and depth < 4:
-                    for x in walk(t["path"], p2, depth + 1):
-                        yield x
-                else:
-                    yield (p2, f["ty"], f["name"])
-
-        leaves = list(walk(SERVER, ()))
+        leaves = list(self.struct_leaves(SERVER))
         for (pth, ti, nm) in leaves:
             ts = prog.types[ti]["s"]
             if ts == "std::net::UdpSocket":
                 lay.setdefault("socket", pth)
             elif ts.startswith("std::collections::HashMap<"):
                 lay.setdefault("clients", pth)
-        new = SERVER + "::new"
-        cfields = [f["name"] for f in prog.adts[CONFIG]["variants"][0]["fields"]] if CONFIG in prog.adts else []
-        if new in prog.bodies:
-            e = self.run("fn:" + new)
-            croot = ("P", ("L", e.entry_frame, 1), ())
-            for st in e.finals:
-                ret = st.store.get(("L", e.entry_frame, 0), {})
-                for k, v in ret.items():
-                    if k[:2] != (("v", 0), 0) or (k and k[-1] in ("$len", "$discr")):
-                        continue
-                    pth = tuple(k[2:])
-                    src = None
-                    if v[0] == "i" and not v[1][1]:
-                        ti = None
-                        for (lp, lti, _) in leaves:
-                            if lp == pth:
-                                ti = lti
-                        if ti is not None and prog.types[ti]["s"] == "usize":
-                            lay.setdefault("largest_block_size", pth)
-                        continue
-                    if v[0] == "i" and len(v[1][1]) == 1 and v[1][0] == 0 and v[1][1][0][1] == 1:
-                        nm = e.sym_names[v[1][1][0][0]]
-                        if isinstance(nm, tuple) and nm[0] == "init" and nm[1] == croot:
-                            src = tuple(nm[2])
-                    elif v[0] == "t" and isinstance(v[1], tuple) and v[1] and v[1][0] == "init" and v[1][1] == croot:
-                        src = tuple(v[1][2])
-                    if src and isinstance(src[0], int) and src[0] < len(cfields):
-                        rest = src[1:]
-                        if rest and pth[-len(rest):] == rest:
-                            pth = pth[:-len(rest)]
-                        lay.setdefault(cfields[src[0]], pth)
+        for k, (pth, isconst) in self.ctor_layout(SERVER + "::new", CONFIG).items():
+            if isinstance(k, str):
+                lay.setdefault(k, pth)
+            elif isconst:
+                for (lp, lti, _) in leaves:
+                    if lp == pth and prog.types[lti]["s"] == "usize":
+                        lay.setdefault("largest_block_size", pth)
         self._server_layout = lay
         return lay
 
@@ -283,22 +352,21 @@ class World:
         if name.startswith("window:"):
             meth = name[7:]
             path = WINDOW + "::" + meth
+            wl = self.window_layout()
             eng = self.engine()
-            fi_el = prog.field_index(WINDOW, "elements")
-            fi_sz = prog.field_index(WINDOW, "size")
+            p_el, p_sz, p_ck = wl.get("elements"), wl.get("size"), wl.get("chunk_size")
 
             def setup(e, st, fr):
                 body = fr.body
                 t = prog.types[body.local_ty(1)] if body.arg_count >= 1 else None
-                if t is not None and t["k"] == "ref" and fi_el is not None and fi_sz is not None:
+                if t is not None and t["k"] == "ref" and p_el is not None and p_sz is not None:
                     root = ("P", ("L", fr.id, 1), ())
-                    ln = e.read(st, root, (fi_el, "$len"))
-                    sz = e.read(st, root, (fi_sz,), _field_ty(prog, WINDOW, fi_sz))
+                    ln = e.read(st, root, p_el + ("$len",))
+                    sz = e.read(st, root, p_sz, e.static_type(root, p_sz))
                     st.ctx.add(lin.le(ln[1], sz[1]))
-                    fi_ck = prog.field_index(WINDOW, "chunk_size")
-                    if fi_ck is not None:
+                    if p_ck is not None:
                         # precondition of the library API: a sane chunk size (the server passes 8..=65464)
-                        ck = e.read(st, root, (fi_ck,), _field_ty(prog, WINDOW, fi_ck))
+                        ck = e.read(st, root, p_ck, e.static_type(root, p_ck))
                         st.ctx.add(lin.le(ck[1], lin.const(1 << 24)))
 
             fr, finals = eng.run(path, setup=setup, region="fn:" + path)
@@ -312,20 +380,21 @@ def _field_ty(prog, adt, fi):
     return prog.adts[adt]["variants"][0]["fields"][fi]["ty"]
 
 
-def get_world(verbose=False):
+def get_world(verbose=False, features=("client",), keep=()):
+    """facts + analysis cache for REPO's current working tree, built with the given cargo features"""
     os.makedirs(CACHE, exist_ok=True)
     lock = open(os.path.join(CACHE, "lock"), "w")
     fcntl.flock(lock, fcntl.LOCK_EX)
     try:
-        h = _hash_tree()
+        h = _hash_tree() + ("" if tuple(features) == ("client",) else "-f_" + "_".join(features))
         d = os.path.join(CACHE, h)
         facts = os.path.join(d, "facts")
-        need = ["tftpd.lib.json", "tftpd.bin.json", "tftpc.bin.json"]
+        need = ["tftpd.lib.json", "tftpd.bin.json"] + (["tftpc.bin.json"] if "client" in features else [])
         if not all(os.path.exists(os.path.join(facts, n)) for n in need):
             shutil.rmtree(d, ignore_errors=True)
             os.makedirs(facts)
             t0 = time.time()
-            extract_facts(facts)
+            extract_facts(facts, features=tuple(features))
             missing = [n for n in need if not os.path.exists(os.path.join(facts, n))]
             if missing:
                 raise SystemExit("fact extraction produced no %s" % missing)
@@ -334,7 +403,7 @@ def get_world(verbose=False):
             # keep the cache small: drop other trees' caches
             for other in os.listdir(CACHE):
                 p = os.path.join(CACHE, other)
-                if os.path.isdir(p) and other != h:
+                if os.path.isdir(p) and other != h and other not in keep and not other.startswith(h.split("-f_")[0]):
                     shutil.rmtree(p, ignore_errors=True)
         w = World(facts, d)
         w.tree_hash = h
